@@ -434,6 +434,74 @@ func mainFamily(setSize, maxList int) *core.Family {
 	}
 }
 
+// manyVariables: templates with three to five variables (one per request part plus nested
+// ones, the same variable in several parts), and value lists long enough to cross the
+// thresholds at which slices and maps grow (12 and 40 values, with duplicates), against
+// every policy alone and the whole policy set.
+func manyVariables() *core.Family {
+	type tv struct {
+		tp template
+		vl map[string][]types.Value
+	}
+	long := func(u []types.Value, n int) []types.Value {
+		out := make([]types.Value, n)
+		for i := range out {
+			out[i] = u[(i*7+i/3)%len(u)]
+		}
+		return out
+	}
+	mk := func(desc string, p, a, r, c types.Value, uni map[string][]types.Value) template {
+		t := template{p: p, a: a, r: r, c: c, desc: desc, uni: uni}
+		for v := range uni {
+			t.vars = append(t.vars, v)
+		}
+		sort.Strings(t.vars)
+		return t
+	}
+	A, R, P := ent("Action", "view"), ent("G", "g1"), ent("U", "alice")
+	var cases []tv
+	t1 := mk("p,act,res,context.a=x (4 variables)", V("p"), V("act"), V("res"), base("a", V("x")), map[string][]types.Value{"p": uniPrincipal, "act": uniAction, "res": uniResource, "x": uniLeaf})
+	cases = append(cases, tv{t1, map[string][]types.Value{"p": uniPrincipal[:2], "act": uniAction[:2], "res": uniResource[:2], "x": uniLeaf[:2]}})
+	cases = append(cases, tv{t1, map[string][]types.Value{"p": long(uniPrincipal, 12), "act": uniAction[:1], "res": uniResource[:1], "x": uniLeaf[:1]}})
+	cases = append(cases, tv{t1, map[string][]types.Value{"p": uniPrincipal[:1], "act": uniAction[:1], "res": uniResource[:1], "x": long(uniLeaf, 40)}})
+	t2 := mk("principal=resource=x, context.a=x, context.s=[y,z] (3 variables, one in three parts)", V("x"), A, V("x"), base("a", V("x"), "s", set(V("y"), V("z"))), map[string][]types.Value{"x": uniResource, "y": uniLeaf, "z": uniLeaf})
+	cases = append(cases, tv{t2, map[string][]types.Value{"x": uniResource, "y": uniLeaf, "z": uniLeaf[:2]}})
+	t3 := mk("five variables: p,act,res,context.a=x,context.r.b=y,context.g=[p]", V("p"), V("act"), V("res"), base("a", V("x"), "r", rec("b", V("y")), "g", set(V("p"))), map[string][]types.Value{"p": uniPrincipal, "act": uniAction, "res": uniResource, "x": uniLeaf, "y": uniLeaf})
+	cases = append(cases, tv{t3, map[string][]types.Value{"p": uniPrincipal[:2], "act": uniAction[:2], "res": uniResource[:2], "x": uniLeaf[:2], "y": uniLeaf[:2]}})
+	cases = append(cases, tv{t3, map[string][]types.Value{"p": uniPrincipal, "act": uniAction[:1], "res": uniResource[:1], "x": uniLeaf, "y": uniLeaf}})
+	t4 := mk("whole context = c, principal = p, three levels of nesting in another variable", V("p"), A, R, V("c"), map[string][]types.Value{"p": uniPrincipal, "c": uniCtx})
+	cases = append(cases, tv{t4, map[string][]types.Value{"p": long(uniPrincipal, 9), "c": long(uniCtx, 17)}})
+	t5 := mk("context.s=[[{k:[x]}]], context.r.b={deep:{deeper:y}}", P, A, R, base("s", set(set(rec("k", set(V("x"))))), "r", rec("b", rec("deep", rec("deeper", V("y"))))), map[string][]types.Value{"x": uniLeaf, "y": uniLeaf})
+	cases = append(cases, tv{t5, map[string][]types.Value{"x": uniLeaf, "y": uniLeaf}})
+	nps := len(policies) + 1
+	return &core.Family{
+		Name: "many-variables-long-lists",
+		Desc: fmt.Sprintf("%d template / value-list cases with 2..5 variables (one per request part, nested three levels deep, one variable in three parts, value lists of 9..40 values with duplicates) x (%d single policies + the whole set), with a fault at every callback position", len(cases), len(policies)),
+		N:    int64(len(cases) * nps),
+		Run: func(t *core.T, i int64) {
+			c := cases[int(i)/nps]
+			k := int(i) % nps
+			ps := cedar.NewPolicySet()
+			desc := "all"
+			if k < len(policies) {
+				ps.Add(cedar.PolicyID(fmt.Sprintf("p%d", k)), policies[k])
+				desc = fmt.Sprintf("p%d", k)
+			} else {
+				for pi, p := range policies {
+					ps.Add(cedar.PolicyID(fmt.Sprintf("p%d", pi)), p)
+				}
+			}
+			cbs := runOne(t, ps, desc, c.tp, c.vl, true)
+			t.AddStates(1)
+			t.AddTrans(int64(cbs))
+			if cbs > 0 {
+				t.Nontrivial()
+			}
+			t.Sample(fmt.Sprintf("policies {%s}; %s; %d callbacks", desc, c.tp.desc, cbs))
+		},
+	}
+}
+
 // documented errors: unbound / unused variables, missing parts, ill-typed values.
 func errorFamily() *core.Family {
 	type c struct {
@@ -496,9 +564,9 @@ func Check() *core.Check {
 				}}}
 			}
 			if tier == "thorough" {
-				return []*core.Family{errorFamily(), mainFamily(3, 2), deepLists()}
+				return []*core.Family{errorFamily(), manyVariables(), mainFamily(3, 2), deepLists()}
 			}
-			return []*core.Family{errorFamily(), mainFamily(1, 2), pairSets()}
+			return []*core.Family{errorFamily(), manyVariables(), mainFamily(1, 2), pairSets()}
 		},
 	}
 }
